@@ -27,6 +27,16 @@ def setup_runtime():
     rt._late()
     logging.disable(logging.CRITICAL)
     import types
+    # formatting stub: repr(packet) is used for log lines only; on symbolic paths it gets an empty body
+    import scapy.packet
+    from vf.engine import Ctx
+    _repr = scapy.packet.Packet.__repr__
+
+    def _pkt_repr(self):
+        if Ctx.cur is not None and Ctx.cur.mode == 'sym':
+            return '<%s>' % type(self).__name__
+        return _repr(self)
+    scapy.packet.Packet.__repr__ = _pkt_repr
     if 'bp.app' not in sys.modules:
         # bp/app/__init__ imports sand/safe/zeroconf (need zeroconf, ifaddr, EDHOC): import the
         # anchored applications only
@@ -338,6 +348,8 @@ def main(argv=None):
           'validated=%d wall=%.1fs' % (prop, tier, len(cases), total.paths, total.cut_paths, total.forks,
                                         total.obligations, total.discharged, total.queries, total.solver_s,
                                         validated, wall))
+    slow = sorted(results, key=lambda r: -r.get('wall_s', 0))[:3]
+    print('slowest cases: %s' % '; '.join('%s %.0fs/%dp' % (case_key(r['case']), r.get('wall_s', 0), r['paths']) for r in slow))
     for (k, d), vs in sorted(known_hits.items()):
         print('KNOWN-FINDING: property=%s %s (%s; %d paths, e.g. inputs %s)' % (
             prop, d, k, sum(v.get('count', 1) for v in vs), json.dumps(vs[0]['inputs'], default=str)[:200]))
